@@ -19,6 +19,7 @@
       iterates in list order; [np.argsort] is a stable insertion sort on the exact
       squared distance.  These orders only matter when a point lies in two columns. *)
 From Coq Require Import List Bool Arith ZArith PArith QArith Qabs Qminmax Qreduction Lia.
+From Gen Require Import GenGeom.
 Import ListNotations.
 Open Scope Q_scope.
 
@@ -46,7 +47,13 @@ Definition rectangles_intersect (r1 r2 : rect) : bool :=
   (qle (px (fst r2)) (px (snd r1)) && qle (px (fst r1)) (px (snd r2))) &&
   (qle (py (fst r2)) (py (snd r1)) && qle (py (fst r1)) (py (snd r2))).
 
-Definition qhalf (a b : Q) : Q := Qred ((1 # 2) * (a + b)).
+(** the literal factor of [centre = 0.5 * (rect[0] + rect[1])] is read from the source on every run *)
+Definition qhalf (a b : Q) : Q := Qred (sub_rect_factor * (a + b)).
+Lemma sub_rect_factor_is_half : sub_rect_factor = 1 # 2.
+Proof. reflexivity. Qed.
+(** [in_polygon] has no tolerance guard (repaired in cb92a48); a guard coming back breaks this lemma *)
+Lemma in_polygon_guard_absent : in_polygon_has_guard = false.
+Proof. reflexivity. Qed.
 
 (** [centre = 0.5 * (rect[0] + rect[1])]; [r0, r1, r2, r3] *)
 Definition sub_rectangles (r : rect) : list rect :=
@@ -193,7 +200,8 @@ Section Geo.
       children exist only for non-empty sub-rectangles.  Python recurses until a node
       has at most one element (for ever when two elements share a centre); here
       [fuel] bounds the depth and an exhausted node stays a leaf ([qdepth t < fuel]
-      certifies that the bound was not hit). *)
+      certifies that the bound was not hit).  [quadtree_split_threshold] (= 1) is read from
+      [if self.num_elements > 1] on every run. *)
   Definition group (rects : list rect) (elts : list positive) (i : nat) : list positive :=
     filter (fun e => match first_rect 0 (centre e) rects with
                      | Some j => Nat.eqb i j
@@ -204,7 +212,7 @@ Section Geo.
     match fuel with
     | O => QNode b elts []
     | S f =>
-        if (1 <? length elts)%nat then
+        if (quadtree_split_threshold <? length elts)%nat then
           let rects := sub_rectangles b in
           QNode b elts
             (flat_map (fun ir : nat * rect =>
